@@ -533,6 +533,8 @@ where
             C::DEBUG_NAME,
             self.eviction.verif_dump()
         ));
+        // H7: the claims currently recorded for this function
+        self.sync_table.verif_dump(out);
     }
 
     fn memo_table_types(&self) -> &Arc<MemoTableTypes> {
